@@ -44,6 +44,9 @@ Levels   == Rng(sc.levels)
 NAlpha   == sc.nalpha           \* number of interval levels carried by unit outputs (0 in pure ledger scenarios)
 
 Matched(i) == Un(i).inBase /\ Un(i).inFeed /\ Un(i).bstate = Un(i).fstate
+\* the feed row carries a missing value for one of the requested estimands (not the one whose votes are tracked here):
+\* 'drop' removes the joined row (the feed row is then passed through as unexpected), 'zero' keeps it as not reporting
+Complete(i) == Matched(i) /\ ~Un(i).nullRes
 
 SumOver(S, f(_)) == FoldSet(LAMBDA i, acc : acc + f(i), 0, S)
 
@@ -116,10 +119,10 @@ Merge ==
 Policy ==
   /\ pc = "policy"
   /\ IF sc.policy = "drop"
-     THEN data' = {i \in data : Matched(i)}          \* dropna on the result columns
-     ELSE data' = data                               \* zero: results := 0, pev := 0
+     THEN data' = {i \in data : Complete(i)}         \* dropna(how="any") on the result columns
+     ELSE data' = data                               \* zero: missing results := 0, pev := 0
   /\ dvotes' = [i \in data' |-> IF Matched(i) THEN Un(i).votes ELSE 0]
-  /\ drep'   = [i \in data' |-> IF Matched(i) THEN Un(i).rep ELSE FALSE]
+  /\ drep'   = [i \in data' |-> IF Complete(i) THEN Un(i).rep ELSE FALSE]
   /\ pc' = "unexpected"
   /\ UNCHANGED <<sc, unexp, nmcat, fR, fN, fX, utable, tables>>
 
@@ -280,8 +283,8 @@ ReportingIsModelled ==
 Eligibility ==
   Done => \A i \in Ids :
     LET u == Un(i)
-        kept == u.inBase /\ (sc.policy = "zero" \/ Matched(i))
-        rep  == Matched(i) /\ u.rep
+        kept == u.inBase /\ (sc.policy = "zero" \/ Complete(i))
+        rep  == Complete(i) /\ u.rep
         blk  == Blocklisted(i)
         oT   == EnabledT /\ u.outlierT
         oM   == EnabledM /\ u.outlierM
